@@ -311,3 +311,397 @@ Proof.
   split; [exact Gn|]. split; [|split; [exact CF | split; [exact FP | exact FC]]].
   eapply prod_facts_mono; [exact Le | exact PF].
 Qed.
+
+Lemma avail_push_spec k T H : 0 < k -> 0 <= H -> H <= T <= H + k - 1 ->
+  avail_push k (T mod k) (H mod k) = k - 1 - (T - H).
+Proof.
+  intros Hk H0 B. unfold avail_push.
+  pose proof (Z.div_mod T k ltac:(lia)) as DT. pose proof (Z.div_mod H k ltac:(lia)) as DH.
+  pose proof (Z.mod_pos_bound T k Hk) as BT. pose proof (Z.mod_pos_bound H k Hk) as BH.
+  destruct (H mod k <=? T mod k) eqn:E.
+  - apply Z.leb_le in E. assert (T / k = H / k) by nia. nia.
+  - apply Z.leb_gt in E. assert (T / k = H / k + 1) by nia. nia.
+Qed.
+
+Lemma avail_pop_spec k T H : 0 < k -> 0 <= H -> H <= T <= H + k - 1 ->
+  avail_pop k (H mod k) (T mod k) = T - H.
+Proof.
+  intros Hk H0 B. unfold avail_pop.
+  pose proof (Z.div_mod T k ltac:(lia)) as DT. pose proof (Z.div_mod H k ltac:(lia)) as DH.
+  pose proof (Z.mod_pos_bound T k Hk) as BT. pose proof (Z.mod_pos_bound H k Hk) as BH.
+  destruct (H mod k <=? T mod k) eqn:E.
+  - apply Z.leb_le in E. assert (T / k = H / k) by nia. nia.
+  - apply Z.leb_gt in E. assert (T / k = H / k + 1) by nia. nia.
+Qed.
+
+Lemma full_test k T H : 2 <= k < 2 ^ 63 -> 0 <= H -> H <= T <= H + k - 1 ->
+  (increment k (T mod k) =? H mod k) = (T - H =? k - 1).
+Proof.
+  intros Kb H0 B. rewrite increment_mod by (try apply Z.mod_pos_bound; lia). rewrite succ_mod by lia.
+  destruct (T - H =? k - 1) eqn:E.
+  - apply Z.eqb_eq in E. apply Z.eqb_eq. replace (T + 1) with (H + k) by lia. apply mod_plus_k. lia.
+  - apply Z.eqb_neq in E. apply Z.eqb_neq. intros M. apply E.
+    assert (T + 1 = H + k); [|lia].
+    apply (mod_window k (H + 1)); [lia | lia | lia |]. rewrite mod_plus_k by lia. exact M.
+Qed.
+
+Lemma empty_test k T H : 2 <= k -> 0 <= H -> H <= T <= H + k - 1 ->
+  (H mod k =? T mod k) = (H =? T).
+Proof.
+  intros Kb H0 B. destruct (H =? T) eqn:E.
+  - apply Z.eqb_eq in E. subst. apply Z.eqb_refl.
+  - apply Z.eqb_neq in E. apply Z.eqb_neq. intros M. apply E. apply (mod_window k H); [lia | lia | lia | exact M].
+Qed.
+
+Ltac st_simpl := unfold set_thread, set_tail, set_head, write_slot, take_slot; cbn [K head tail slots led th0 th1].
+
+Lemma G_bounds k h t sl l pu po pr pw : G k h t sl l pu po pr pw ->
+  2 <= k < 2 ^ 63 /\ h = zlen po mod k /\ t = zlen pu mod k /\ 0 <= zlen po /\ zlen po + zlen pr <= zlen pu /\ zlen pu + zlen pw <= zlen po + k - 1 /\ 0 <= zlen pr /\ 0 <= zlen pw.
+Proof.
+  intros (Kb & Eh & Et & B1 & B2 & _). pose proof (zlen_nonneg pr). pose proof (zlen_nonneg pw). pose proof (zlen_nonneg po). tauto.
+Qed.
+
+
+
+Lemma next_pf k tl T H th : Forall prod_op (prog th) -> prod_facts k tl T H (tpc (next th)).
+Proof. intros F. apply next_prod. exact F. Qed.
+Lemma next_pp th : Forall prod_op (prog th) -> Forall prod_op (prog (next th)).
+Proof. intros F. apply (next_prod 0 0 0 0). exact F. Qed.
+Lemma next_cf k hd T H th : Forall cons_op (prog th) -> cons_facts k hd T H (tpc (next th)).
+Proof. intros F. apply next_cons. exact F. Qed.
+Lemma next_cp th : Forall cons_op (prog th) -> Forall cons_op (prog (next th)).
+Proof. intros F. apply (next_cons 0 0 0 0). exact F. Qed.
+
+Lemma vals_next_logr tag th t v :
+  vals_of tag (res (next (logr th t v))) = vals_of tag (res th) ++ (if t =? tag then [v] else []).
+Proof. rewrite next_res. cbn [logr res]. apply vals_of_cons. Qed.
+
+(* an operation of thread 0 completes without accepting anything *)
+Lemma prod_done_inv s t v :
+  Inv s -> wl (tpc (th0 s)) = [] -> (t =? r_push) = false ->
+  Inv (ST (K s) (head s) (tail s) (slots s) (led s) (next (logr (th0 s) t v)) (th1 s)).
+Proof.
+  intros I0 W Nt. pose proof I0 as (Gs & PF & CF & FP & FC). rewrite W in Gs.
+  assert (V : vals_of r_push (res (next (logr (th0 s) t v))) = pushed s).
+  { rewrite vals_next_logr, Nt, app_nil_r. reflexivity. }
+  apply prod_step_inv; [exact I0 | rewrite next_wl, V; exact Gs | rewrite V; apply next_pf; exact FP | rewrite V; apply Z.le_refl | apply next_pp; exact FP].
+Qed.
+
+Lemma step_prod s ch s' ch' site : Inv s -> step s 0 ch = Some (s', ch', site) -> Inv s'.
+Proof.
+  intros I0 E. pose proof I0 as (Gs & PF & CF & FP & FC).
+  unfold step in E. cbn [get_thread] in E.
+  pose proof (G_bounds _ _ _ _ _ _ _ _ _ Gs) as (Kb & Eh & Et & H0 & B1 & B2 & Nr & Nw).
+  destruct (tpc (th0 s)) eqn:P; cbn [wl prod_facts] in Gs, PF, B2; try contradiction; try (change (zlen (@nil Z)) with 0 in B2; rewrite Z.add_0_r in B2).
+  - (* PStart *) injection E as <- _ _. st_simpl.
+    apply prod_step_inv; [exact I0 | rewrite next_wl, next_res; exact Gs | rewrite next_res; apply next_pf; exact FP | rewrite next_res; apply Z.le_refl | apply next_pp; exact FP].
+  - (* PPushLoadTail *) injection E as <- _ _. st_simpl.
+    apply prod_step_inv; [exact I0 | exact Gs | reflexivity | apply Z.le_refl | exact FP].
+  - (* PPushLoadHead *) subst ct.
+    destruct (increment (K s) (tail s) =? head s) eqn:C; injection E as <- _ _; st_simpl.
+    + apply prod_done_inv; [exact I0 | rewrite P; reflexivity | reflexivity].
+    + apply prod_step_inv; [exact I0 | exact Gs | | apply Z.le_refl | exact FP].
+      cbn. split; [reflexivity|]. rewrite Eh, Et in C. rewrite full_test in C by lia. apply Z.eqb_neq in C. change (zlen (pushed s) - zlen (popped s) < K s - 1). lia.
+  - (* PPushWrite *) destruct PF as [-> Lt]. injection E as <- _ _. st_simpl.
+    apply prod_step_inv; [exact I0 | | reflexivity | apply Z.le_refl | exact FP].
+    cbn [goto tpc res wl]. pose proof (G_write _ _ _ _ _ _ _ _ _ v Gs) as W.
+    change (zlen (@nil Z)) with 0 in W. rewrite Z.add_0_r, <- Et in W. apply W. lia.
+  - (* PPushStoreTail *) subst ct. injection E as <- _ _. st_simpl.
+    assert (V : vals_of r_push (res (next (logr (th0 s) r_push v))) = pushed s ++ [v]).
+    { rewrite vals_next_logr. reflexivity. }
+    apply prod_step_inv; [exact I0 | | rewrite V; apply next_pf; exact FP | rewrite V, zlen_app; change (zlen [v]) with 1; lia | apply next_pp; exact FP].
+    rewrite next_wl, V. pose proof (G_commit_w _ _ _ _ _ _ _ _ _ Gs) as W.
+    change (zlen [v]) with 1 in W. change (zlen [v]) with 1 in B2.
+    rewrite Et, increment_mod, succ_mod by (try apply Z.mod_pos_bound; lia). exact W.
+  - (* PBLoadTail *) injection E as <- _ _. st_simpl.
+    apply prod_step_inv; [exact I0 | exact Gs | reflexivity | apply Z.le_refl | exact FP].
+  - (* PBLoadHead *) subst ct.
+    assert (A : avail_push (K s) (tail s) (head s) = K s - 1 - (zlen (pushed s) - zlen (popped s))).
+    { rewrite Eh, Et. apply avail_push_spec; lia. }
+    destruct (avail_push (K s) (tail s) (head s) =? 0) eqn:C.
+    + injection E as <- _ _; st_simpl. apply prod_done_inv; [exact I0 | rewrite P; reflexivity | reflexivity].
+    + apply Z.eqb_neq in C. destruct vs as [|v0 vs'].
+      * injection E as <- _ _; st_simpl. apply prod_done_inv; [exact I0 | rewrite P; reflexivity | reflexivity].
+      * injection E as <- _ _; st_simpl.
+        apply prod_step_inv; [exact I0 | exact Gs | | apply Z.le_refl | exact FP].
+        cbn [goto tpc res prod_facts]. change (vals_of r_push (res (th0 s))) with (pushed s).
+        split; [discriminate|]. split; [rewrite Z.add_0_r; exact Et|]. split; [reflexivity|]. lia.
+  - (* PBWrite *) destruct PF as (Nv & -> & -> & Lt & Ba). destruct vs as [|v rest]; [contradiction|].
+    pose proof (zlen_nonneg wr) as Nwr.
+    pose proof (G_write _ _ _ _ _ _ _ _ _ v Gs ltac:(lia)) as W.
+    assert (Etp : increment (K s) ((zlen (pushed s) + zlen wr) mod K s) = (zlen (pushed s) + (zlen wr + 1)) mod K s).
+    { rewrite increment_mod, succ_mod, Z.add_assoc by (try apply Z.mod_pos_bound; lia). reflexivity. }
+    assert (Ecn : zlen wr + 1 = zlen (wr ++ [v])) by (rewrite zlen_app; reflexivity).
+    destruct rest as [|r0 r1]; [|destruct (zlen wr + 1 <? avail) eqn:C]; injection E as <- _ _; st_simpl.
+    + apply prod_step_inv; [exact I0 | exact W | | apply Z.le_refl | exact FP].
+      cbn [goto tpc res prod_facts]. change (vals_of r_push (res (th0 s))) with (pushed s).
+      split; [exact Etp|]. split; [exact Ecn|]. lia.
+    + apply prod_step_inv; [exact I0 | exact W | | apply Z.le_refl | exact FP].
+      cbn [goto tpc res prod_facts]. change (vals_of r_push (res (th0 s))) with (pushed s). apply Z.ltb_lt in C.
+      split; [discriminate|]. split; [exact Etp|]. split; [exact Ecn|]. lia.
+    + apply prod_step_inv; [exact I0 | exact W | | apply Z.le_refl | exact FP].
+      cbn [goto tpc res prod_facts]. change (vals_of r_push (res (th0 s))) with (pushed s).
+      split; [exact Etp|]. split; [exact Ecn|]. lia.
+  - (* PBStoreTail *) destruct PF as (-> & -> & Pos). injection E as <- _ _. st_simpl.
+    assert (V : vals_of r_push (res (next (logr (logrs (th0 s) r_push wr) r_pushb (zlen wr)))) = pushed s ++ wr).
+    { rewrite vals_next_logr. change (r_pushb =? r_push) with false. rewrite app_nil_r. cbn [logrs res].
+      rewrite vals_of_logrs. reflexivity. }
+    apply prod_step_inv; [exact I0 | | rewrite V; apply next_pf; exact FP | rewrite V, zlen_app; lia | apply next_pp; exact FP].
+    rewrite next_wl, V. exact (G_commit_w _ _ _ _ _ _ _ _ _ Gs).
+  - (* PSizeLoadHead *) injection E as <- _ _. st_simpl.
+    apply prod_step_inv; [exact I0 | exact Gs | reflexivity | apply Z.le_refl | exact FP].
+  - (* PSizeLoadTail *) injection E as <- _ _. st_simpl. apply prod_done_inv; [exact I0 | rewrite P; reflexivity | reflexivity].
+  - (* PEmpty *) injection E as <- _ _. st_simpl. apply prod_done_inv; [exact I0 | rewrite P; reflexivity | reflexivity].
+  - (* PFull *) injection E as <- _ _. st_simpl. apply prod_done_inv; [exact I0 | rewrite P; reflexivity | reflexivity].
+  - discriminate.
+Qed.
+
+(* an operation of thread 1 completes without delivering anything *)
+Lemma cons_done_inv s t v :
+  Inv s -> rl (tpc (th1 s)) = [] -> (t =? r_pop) = false ->
+  Inv (ST (K s) (head s) (tail s) (slots s) (led s) (th0 s) (next (logr (th1 s) t v))).
+Proof.
+  intros I0 W Nt. pose proof I0 as (Gs & PF & CF & FP & FC). rewrite W in Gs.
+  assert (V : vals_of r_pop (res (next (logr (th1 s) t v))) = popped s).
+  { rewrite vals_next_logr, Nt, app_nil_r. reflexivity. }
+  apply cons_step_inv; [exact I0 | rewrite next_rl, V; exact Gs | rewrite V; apply next_cf; exact FC | rewrite V; apply Z.le_refl | apply next_cp; exact FC].
+Qed.
+
+Lemma step_cons s ch s' ch' site : Inv s -> step s 1 ch = Some (s', ch', site) -> Inv s'.
+Proof.
+  intros I0 E. pose proof I0 as (Gs & PF & CF & FP & FC).
+  unfold step in E. cbn [get_thread] in E.
+  pose proof (G_bounds _ _ _ _ _ _ _ _ _ Gs) as (Kb & Eh & Et & H0 & B1 & B2 & Nr & Nw).
+  destruct (tpc (th1 s)) eqn:P; cbn [rl cons_facts] in Gs, CF, B1; try contradiction; try (change (zlen (@nil Z)) with 0 in B1; rewrite Z.add_0_r in B1).
+  - (* PStart *) injection E as <- _ _. st_simpl.
+    apply cons_step_inv; [exact I0 | rewrite next_rl, next_res; exact Gs | rewrite next_res; apply next_cf; exact FC | rewrite next_res; apply Z.le_refl | apply next_cp; exact FC].
+  - (* PPopLoadHead *) injection E as <- _ _. st_simpl.
+    apply cons_step_inv; [exact I0 | exact Gs | reflexivity | apply Z.le_refl | exact FC].
+  - (* PPopLoadTail *) subst ch0.
+    destruct (head s =? tail s) eqn:C; injection E as <- _ _; st_simpl.
+    + apply cons_done_inv; [exact I0 | rewrite P; reflexivity | reflexivity].
+    + apply cons_step_inv; [exact I0 | exact Gs | | apply Z.le_refl | exact FC].
+      cbn. split; [reflexivity|]. rewrite Eh, Et in C. rewrite empty_test in C by lia. apply Z.eqb_neq in C.
+      change (zlen (popped s) < zlen (pushed s)). lia.
+  - (* PPopRead *) destruct CF as [-> Lt]. injection E as <- _ _. st_simpl.
+    apply cons_step_inv; [exact I0 | | reflexivity | apply Z.le_refl | exact FC].
+    cbn [goto tpc res rl]. pose proof (G_take _ _ _ _ _ _ _ _ _ Gs) as W.
+    change (zlen (@nil Z)) with 0 in W. rewrite Z.add_0_r, <- Eh in W. apply W. lia.
+  - (* PPopStoreHead *) subst ch0. injection E as <- _ _. st_simpl.
+    assert (V : vals_of r_pop (res (next (logr (th1 s) r_pop v))) = popped s ++ [v]).
+    { rewrite vals_next_logr. reflexivity. }
+    apply cons_step_inv; [exact I0 | | rewrite V; apply next_cf; exact FC | rewrite V, zlen_app; change (zlen [v]) with 1; lia | apply next_cp; exact FC].
+    rewrite next_rl, V. pose proof (G_commit_r _ _ _ _ _ _ _ _ _ Gs) as W.
+    change (zlen [v]) with 1 in W. change (zlen [v]) with 1 in B1.
+    rewrite Eh, increment_mod, succ_mod by (try apply Z.mod_pos_bound; lia). exact W.
+  - (* PQLoadHead *) injection E as <- _ _. st_simpl.
+    apply cons_step_inv; [exact I0 | exact Gs | cbn; split; [reflexivity | exact CF] | apply Z.le_refl | exact FC].
+  - (* PQLoadTail *) destruct CF as [-> M0].
+    assert (A : avail_pop (K s) (head s) (tail s) = zlen (pushed s) - zlen (popped s)).
+    { rewrite Eh, Et. apply avail_pop_spec; lia. }
+    destruct ((avail_pop (K s) (head s) (tail s) =? 0) || (Z.min (avail_pop (K s) (head s) (tail s)) m =? 0)) eqn:C;
+      injection E as <- _ _; st_simpl.
+    + apply cons_done_inv; [exact I0 | rewrite P; reflexivity | reflexivity].
+    + apply orb_false_iff in C. destruct C as [C1 C2]. apply Z.eqb_neq in C1, C2.
+      apply cons_step_inv; [exact I0 | exact Gs | | apply Z.le_refl | exact FC].
+      cbn [goto tpc res cons_facts]. change (vals_of r_pop (res (th1 s))) with (popped s).
+      split; [rewrite Z.add_0_r; exact Eh|]. split; [reflexivity|]. lia.
+  - (* PQRead *) destruct CF as (-> & -> & Lt & Bc).
+    pose proof (zlen_nonneg acc) as Nacc.
+    pose proof (G_take _ _ _ _ _ _ _ _ _ Gs ltac:(lia)) as W.
+    assert (Ehp : increment (K s) ((zlen (popped s) + zlen acc) mod K s) = (zlen (popped s) + (zlen acc + 1)) mod K s).
+    { rewrite increment_mod, succ_mod, Z.add_assoc by (try apply Z.mod_pos_bound; lia). reflexivity. }
+    assert (Ecn : zlen acc + 1 = zlen (acc ++ [slots s ((zlen (popped s) + zlen acc) mod K s)])) by (rewrite zlen_app; reflexivity).
+    destruct (zlen acc + 1 <? cnt) eqn:C; injection E as <- _ _; st_simpl.
+    + apply cons_step_inv; [exact I0 | exact W | | apply Z.le_refl | exact FC].
+      cbn [goto tpc res cons_facts]. change (vals_of r_pop (res (th1 s))) with (popped s). apply Z.ltb_lt in C.
+      split; [exact Ehp|]. split; [exact Ecn|]. lia.
+    + apply cons_step_inv; [exact I0 | exact W | | apply Z.le_refl | exact FC].
+      cbn [goto tpc res cons_facts]. change (vals_of r_pop (res (th1 s))) with (popped s). apply Z.ltb_ge in C.
+      assert (cnt = zlen acc + 1) by lia. subst cnt.
+      split; [exact Ehp|]. split; [exact Ecn|]. lia.
+  - (* PQStoreHead *) destruct CF as (-> & -> & Pos). injection E as <- _ _. st_simpl.
+    assert (V : vals_of r_pop (res (next (logr (logrs (th1 s) r_pop acc) r_popb (zlen acc)))) = popped s ++ acc).
+    { rewrite vals_next_logr. change (r_popb =? r_pop) with false. rewrite app_nil_r. cbn [logrs res].
+      rewrite vals_of_logrs. reflexivity. }
+    apply cons_step_inv; [exact I0 | | rewrite V; apply next_cf; exact FC | rewrite V, zlen_app; lia | apply next_cp; exact FC].
+    rewrite next_rl, V. exact (G_commit_r _ _ _ _ _ _ _ _ _ Gs).
+  - (* PSizeLoadHead *) injection E as <- _ _. st_simpl.
+    apply cons_step_inv; [exact I0 | exact Gs | reflexivity | apply Z.le_refl | exact FC].
+  - (* PSizeLoadTail *) injection E as <- _ _. st_simpl. apply cons_done_inv; [exact I0 | rewrite P; reflexivity | reflexivity].
+  - (* PEmpty *) injection E as <- _ _. st_simpl. apply cons_done_inv; [exact I0 | rewrite P; reflexivity | reflexivity].
+  - (* PFull *) injection E as <- _ _. st_simpl. apply cons_done_inv; [exact I0 | rewrite P; reflexivity | reflexivity].
+  - discriminate.
+Qed.
+
+Lemma init_inv k p0 p1 : 2 <= k < 2 ^ 63 -> Forall prod_op p0 -> Forall cons_op p1 -> Inv (init k p0 p1).
+Proof.
+  intros Kb F0 F1. unfold Inv, init, pushed, popped. cbn [K head tail slots led th0 th1 tpc prog res rl wl vals_of rev filter map].
+  split; [apply G_init; exact Kb|]. split; [exact I|]. split; [exact I|]. split; assumption.
+Qed.
+
+Theorem spsc_inv k p0 p1 s : 2 <= k < 2 ^ 63 -> Forall prod_op p0 -> Forall cons_op p1 ->
+  reach step (init k p0 p1) s -> Inv s.
+Proof.
+  intros Kb F0 F1 R. apply (reach_inv step Inv (init k p0 p1)); [apply init_inv; assumption | | exact R].
+  intros s1 t ch s1' ch' site I E. destruct t as [|[|t]].
+  - eapply step_prod; eauto.
+  - eapply step_cons; eauto.
+  - unfold step in E. cbn [get_thread] in E. discriminate.
+Qed.
+
+(* ---- contents ---- *)
+Lemma skipn_nth_cons (l : list Z) n : (n < length l)%nat -> skipn n l = nth n l 0 :: skipn (S n) l.
+Proof.
+  revert n; induction l as [|a l IH]; intros n H; [simpl in H; lia|].
+  destruct n as [|n]; [reflexivity|]. simpl in H. cbn [skipn nth]. apply IH. lia.
+Qed.
+
+Lemma ring_read_spec sl k pu : 2 <= k < 2 ^ 63 -> forall n H,
+  0 <= H -> H + Z.of_nat n <= zlen pu ->
+  (forall p, H <= p < H + Z.of_nat n -> sl (p mod k) = nth (Z.to_nat p) pu 0) ->
+  ring_read sl k (H mod k) n = firstn n (skipn (Z.to_nat H) pu).
+Proof.
+  intros Kb. induction n as [|n IH]; intros H H0 B V; [reflexivity|].
+  cbn [ring_read]. rewrite increment_mod, succ_mod by (try apply Z.mod_pos_bound; lia).
+  rewrite (skipn_nth_cons pu (Z.to_nat H)) by (unfold zlen in B; lia). cbn [firstn]. f_equal.
+  - apply V. lia.
+  - rewrite IH; [| lia | lia | intros p Hp; apply V; lia]. replace (Z.to_nat (H + 1)) with (S (Z.to_nat H)) by lia. reflexivity.
+Qed.
+
+Lemma occupancy_spec s : Inv s -> occupancy s = zlen (pushed s) - zlen (popped s) /\ 0 <= occupancy s <= K s - 1.
+Proof.
+  intros (Gs & _). destruct (G_bounds _ _ _ _ _ _ _ _ _ Gs) as (Kb & Eh & Et & H0 & B1 & B2 & Nr & Nw).
+  unfold occupancy. rewrite Eh, Et, <- Zminus_mod. rewrite Z.mod_small by lia. lia.
+Qed.
+
+Lemma popped_prefix s : Inv s -> popped s = firstn (Z.to_nat (zlen (popped s))) (pushed s).
+Proof.
+  intros (Gs & _). destruct (G_bounds _ _ _ _ _ _ _ _ _ Gs) as (Kb & Eh & Et & H0 & B1 & B2 & Nr & Nw).
+  destruct Gs as (_ & _ & _ & _ & _ & P1 & _).
+  assert (E : firstn (Z.to_nat (zlen (popped s))) (popped s ++ rl (tpc (th1 s))) = popped s).
+  { rewrite firstn_app_le by (unfold zlen; lia). apply firstn_all2. unfold zlen. lia. }
+  rewrite <- E at 1. rewrite P1, firstn_firstn. f_equal. lia.
+Qed.
+
+Lemma contents_spec s : Inv s -> contents s = skipn (Z.to_nat (zlen (popped s))) (pushed s).
+Proof.
+  intros I0. destruct (occupancy_spec s I0) as [Oc Ob]. destruct I0 as (Gs & _).
+  destruct (G_bounds _ _ _ _ _ _ _ _ _ Gs) as (Kb & Eh & Et & H0 & B1 & B2 & Nr & Nw).
+  destruct Gs as (_ & _ & _ & _ & _ & _ & V1 & _).
+  unfold contents. rewrite Eh.
+  rewrite (ring_read_spec (slots s) (K s) (pushed s) Kb); [| lia | lia |].
+  - apply firstn_all2. rewrite skipn_length. unfold zlen in *. lia.
+  - intros p Hp. rewrite V1 by lia. apply nth_z_app1. lia.
+Qed.
+
+Theorem spsc_exactly_once_in_order_inv s : Inv s -> pushed s = popped s ++ contents s.
+Proof.
+  intros I0. rewrite (contents_spec s I0). rewrite (popped_prefix s I0) at 1. symmetry. apply firstn_skipn.
+Qed.
+
+Theorem spsc_bounded_inv s : Inv s ->
+  zlen (contents s) = occupancy s /\ 0 <= occupancy s <= K s - 1 /\
+  zlen (pushed s) + zlen (wl (tpc (th0 s))) - zlen (popped s) <= K s - 1.
+Proof.
+  intros I0. destruct (occupancy_spec s I0) as [Oc Ob]. pose proof (contents_spec s I0) as C.
+  destruct I0 as (Gs & _). destruct (G_bounds _ _ _ _ _ _ _ _ _ Gs) as (Kb & Eh & Et & H0 & B1 & B2 & Nr & Nw).
+  split; [|split; [exact Ob | lia]].
+  rewrite C. unfold zlen in *. rewrite skipn_length. lia.
+Qed.
+
+Theorem push_ok_iff_not_full_inv s v ct ch s' ch' site :
+  Inv s -> tpc (th0 s) = PPushLoadHead v ct -> step s 0 ch = Some (s', ch', site) ->
+  (occupancy s = K s - 1 /\ res (th0 s') = (r_pushfail, v) :: res (th0 s)) \/
+  (occupancy s < K s - 1 /\ tpc (th0 s') = PPushWrite v ct).
+Proof.
+  intros I0 P E. destruct (occupancy_spec s I0) as [Oc Ob]. destruct I0 as (Gs & PF & _).
+  destruct (G_bounds _ _ _ _ _ _ _ _ _ Gs) as (Kb & Eh & Et & H0 & B1 & B2 & Nr & Nw).
+  rewrite P in PF, B2. cbn in PF, B2. subst ct.
+  unfold step in E. cbn [get_thread] in E. rewrite P in E.
+  assert (C : (increment (K s) (tail s) =? head s) = (occupancy s =? K s - 1)).
+  { rewrite Eh, Et, Oc. apply full_test; lia. }
+  rewrite C in E. destruct (occupancy s =? K s - 1) eqn:D; injection E as <- _ _.
+  - left. apply Z.eqb_eq in D. split; [exact D|]. cbn [set_thread th0]. rewrite next_res. reflexivity.
+  - right. apply Z.eqb_neq in D. split; [lia | reflexivity].
+Qed.
+
+Theorem pop_ok_iff_not_empty_inv s c ch s' ch' site :
+  Inv s -> tpc (th1 s) = PPopLoadTail c -> step s 1 ch = Some (s', ch', site) ->
+  (occupancy s = 0 /\ res (th1 s') = (r_popfail, 0) :: res (th1 s)) \/
+  (0 < occupancy s /\ tpc (th1 s') = PPopRead c).
+Proof.
+  intros I0 P E. destruct (occupancy_spec s I0) as [Oc Ob]. destruct I0 as (Gs & _ & CF & _).
+  destruct (G_bounds _ _ _ _ _ _ _ _ _ Gs) as (Kb & Eh & Et & H0 & B1 & B2 & Nr & Nw).
+  rewrite P in CF, B1. cbn in CF, B1. subst c.
+  unfold step in E. cbn [get_thread] in E. rewrite P in E.
+  assert (C : (head s =? tail s) = (occupancy s =? 0)).
+  { rewrite Eh, Et, Oc. rewrite empty_test by lia. destruct (zlen (popped s) =? zlen (pushed s)) eqn:D1; symmetry; [apply Z.eqb_eq; apply Z.eqb_eq in D1 | apply Z.eqb_neq; apply Z.eqb_neq in D1]; lia. }
+  rewrite C in E. destruct (occupancy s =? 0) eqn:D; injection E as <- _ _.
+  - left. apply Z.eqb_eq in D. split; [exact D|]. cbn [set_thread th1]. rewrite next_res. reflexivity.
+  - right. apply Z.eqb_neq in D. split; [lia | reflexivity].
+Qed.
+
+(* the free space / number of elements a batch operation computes from its two loads is exact at the second load *)
+Theorem pushb_avail_as_observed_inv s vs ct : Inv s -> tpc (th0 s) = PBLoadHead vs ct ->
+  avail_push (K s) ct (head s) = K s - 1 - occupancy s.
+Proof.
+  intros I0 P. destruct (occupancy_spec s I0) as [Oc Ob]. destruct I0 as (Gs & PF & _).
+  destruct (G_bounds _ _ _ _ _ _ _ _ _ Gs) as (Kb & Eh & Et & H0 & B1 & B2 & Nr & Nw).
+  rewrite P in PF, B2. cbn in PF, B2. subst ct. rewrite Oc, Eh, Et. apply avail_push_spec; lia.
+Qed.
+
+Theorem popb_avail_as_observed_inv s m c : Inv s -> tpc (th1 s) = PQLoadTail m c ->
+  avail_pop (K s) c (tail s) = occupancy s.
+Proof.
+  intros I0 P. destruct (occupancy_spec s I0) as [Oc Ob]. destruct I0 as (Gs & _ & CF & _).
+  destruct (G_bounds _ _ _ _ _ _ _ _ _ Gs) as (Kb & Eh & Et & H0 & B1 & B2 & Nr & Nw).
+  rewrite P in CF, B1. cbn in CF, B1. destruct CF as [-> _]. rewrite Oc, Eh, Et. apply avail_pop_spec; lia.
+Qed.
+
+(* ---- lifetimes ---- *)
+Theorem lifetimes_inv s : Inv s ->
+  l_errs (led s) = [] /\
+  (forall p, zlen (popped s) + zlen (rl (tpc (th1 s))) <= p < zlen (pushed s) + zlen (wl (tpc (th0 s))) -> lget (led s) (p mod K s) = Alive) /\
+  (forall p, zlen (pushed s) + zlen (wl (tpc (th0 s))) <= p < zlen (popped s) + zlen (rl (tpc (th1 s))) + K s -> is_live (lget (led s) (p mod K s)) = false).
+Proof. intros ((_ & _ & _ & _ & _ & _ & _ & L1 & L2 & Ok) & _). auto. Qed.
+
+Lemma dtor_loop_spec k T : 2 <= k < 2 ^ 63 -> forall fuel l H,
+  0 <= H <= T -> T - H <= Z.of_nat fuel -> T - H <= k - 1 ->
+  (forall p, H <= p < T -> lget l (p mod k) = Alive) ->
+  (forall p, T <= p < H + k -> is_live (lget l (p mod k)) = false) -> l_errs l = [] ->
+  l_errs (dtor_loop fuel k l (H mod k) (T mod k)) = [] /\
+  forall p, T <= p < T + k -> is_live (lget (dtor_loop fuel k l (H mod k) (T mod k)) (p mod k)) = false.
+Proof.
+  intros Kb. induction fuel as [|fuel IH]; intros l H B Bf Bk L1 L2 Ok.
+  - cbn [dtor_loop]. assert (H = T) by lia. subst H. split; [exact Ok | exact L2].
+  - cbn [dtor_loop]. rewrite empty_test by lia. destruct (H =? T) eqn:E.
+    + apply Z.eqb_eq in E. subst H. split; [exact Ok | exact L2].
+    + apply Z.eqb_neq in E. rewrite increment_mod, succ_mod by (try apply Z.mod_pos_bound; lia).
+      assert (A : is_live (lget l (H mod k)) = true) by (rewrite L1 by lia; reflexivity).
+      apply IH; [lia | lia | lia | | | ].
+      * intros p Hp. rewrite lget_destroy_live by exact A. destruct (H mod k =? p mod k) eqn:M; [|apply L1; lia].
+        apply Z.eqb_eq in M. exfalso. assert (H = p); [|lia]. apply (mod_window k H); [lia | lia | lia | exact M].
+      * intros p Hp. rewrite lget_destroy_live by exact A. destruct (H mod k =? p mod k) eqn:M; [reflexivity|]. apply L2.
+        destruct (Z.eq_dec p (H + k)) as [->|N]; [|lia]. rewrite mod_plus_k, Z.eqb_refl in M by lia. discriminate.
+      * rewrite errs_destroy_live by exact A. exact Ok.
+Qed.
+
+(* after the destructor (called when no operation is in flight) no slot holds an element that still needs a destructor,
+   and no misuse was recorded: every element was destroyed exactly once *)
+Theorem dtor_balanced_inv s : Inv s -> rl (tpc (th1 s)) = [] -> wl (tpc (th0 s)) = [] ->
+  l_errs (dtor s) = [] /\ forall i, 0 <= i < K s -> is_live (lget (dtor s) i) = false.
+Proof.
+  intros I0 R W. destruct I0 as (Gs & _). rewrite R, W in Gs.
+  destruct (G_bounds _ _ _ _ _ _ _ _ _ Gs) as (Kb & Eh & Et & H0 & B1 & B2 & Nr & Nw).
+  destruct Gs as (_ & _ & _ & _ & _ & _ & _ & L1 & L2 & Ok).
+  change (zlen (@nil Z)) with 0 in *. rewrite Z.add_0_r in *.
+  unfold dtor. rewrite Eh, Et.
+  destruct (dtor_loop_spec (K s) (zlen (pushed s)) Kb (Z.to_nat (K s)) (led s) (zlen (popped s))) as [D1 D2]; [lia | lia | lia | intros p Hp; apply L1; lia | intros p Hp; apply L2; lia | exact Ok |].
+  split; [exact D1|]. intros i Hi.
+  set (T := zlen (pushed s)) in *.
+  specialize (D2 (T + (i - T) mod K s)).
+  pose proof (Z.mod_pos_bound (i - T) (K s) ltac:(lia)) as Bm.
+  rewrite Zplus_mod_idemp_r in D2. replace (T + (i - T)) with i in D2 by lia. rewrite (Z.mod_small i (K s)) in D2 by lia.
+  apply D2. lia.
+Qed.
